@@ -142,3 +142,15 @@ package avfs
 //@ func Glob
 //@   event
 //@   trusted
+
+// ---- vfs.go: open-flag decoding (C01, C02) ---------------------------------------------------
+
+//@ func ToOpenMode
+//@   mode bv
+//@   ensures[C01,C02] (r0&OpenRead != 0) == (flag&3 == os.O_RDONLY || flag&3 == os.O_RDWR)
+//@   ensures[C01,C02] (r0&OpenWrite != 0) == (flag&3 == os.O_WRONLY || flag&3 == os.O_RDWR)
+//@   ensures[C01] (r0&OpenCreate != 0) == (flag&os.O_CREATE != 0)
+//@   ensures[C01] (r0&OpenCreateExcl != 0) == (flag&os.O_CREATE != 0 && flag&os.O_EXCL != 0)
+//@   ensures[C01,C02] (r0&OpenAppend != 0) == (flag&os.O_APPEND != 0)
+//@   ensures[C01,C02] (r0&OpenTruncate != 0) == (flag&os.O_TRUNC != 0)
+//@   modifies nothing
